@@ -2,6 +2,7 @@ package props
 
 import (
 	"fmt"
+	"strings"
 	"reflect"
 	"testing"
 
@@ -64,6 +65,7 @@ func diffVictims(a, b victimView) string {
 
 type C10Oracle struct {
 	NopOracle
+	removed   map[string]bool // accounts dropped from a DID by an accepted key rotation (by address)
 	attackers map[string]bool
 	before    victimView
 	twinOK    bool
@@ -94,6 +96,23 @@ func (o *C10Oracle) BeforeAction(s *Sim, a *Action) {
 }
 
 func (o *C10Oracle) AfterAction(s *Sim, a *Action, pre, post *chain.Snapshot, res *chain.TxResult) {
+	if a.Kind == "did_update" && res.OK {
+		if o.removed == nil {
+			o.removed = map[string]bool{}
+		}
+		for _, ref := range strings.Fields(a.Extra["remove"]) {
+			if ref[0] == 'c' {
+				o.removed[s.bech(atoi(ref[1:]))] = true
+			}
+		}
+	}
+	if (a.Kind == "bind_sid" || a.Kind == "did_bind") && res.OK && o.removed != nil {
+		if a.Target >= 0 {
+			delete(o.removed, s.bech(a.Target))
+		} else {
+			delete(o.removed, s.bech(a.Creator))
+		}
+	}
 	if a.Kind == "store" && res.OK {
 		o.payerClause(s, a, pre, post)
 	}
@@ -147,7 +166,7 @@ func (o *C10Oracle) payerClause(s *Sim, a *Action, pre, post *chain.Snapshot) {
 				}
 			}
 			for _, b := range pre.Did.DidList {
-				if b.Did == ord.Owner && b.AccountId == chain.CosmosAccountId(s.W.Cfg.ChainID, creator) {
+				if b.Did == ord.Owner && b.AccountId == chain.CosmosAccountId(s.W.Cfg.ChainID, creator) && !o.removed[creator] {
 					okSubmitter = true
 				}
 			}
@@ -166,6 +185,7 @@ type c10World struct {
 	owner, sidOwner, sponsor     int
 	sidAcct                      int
 	nextData                     int
+	formerMember                 int // account that was bound to the sid owner and has been removed (0: none)
 }
 
 func setupC10(t *rapid.T, s *Sim) *c10World {
@@ -186,6 +206,19 @@ func setupC10(t *rapid.T, s *Sim) *c10World {
 		w.sidOwner = len(s.Dids) - 1
 	} else {
 		w.sidOwner = -1
+	}
+	// a former member: account 11 is bound to the sid owner too and then dropped by a key rotation
+	if w.sidOwner >= 0 {
+		b2 := NewAction("bind_sid", 9)
+		b2.Owner, b2.Target, b2.Ts = w.sidOwner, 11, 4_000_000_003
+		if s.Do(b2).OK {
+			u := NewAction("did_update", 9)
+			u.Owner, u.Ts = w.sidOwner, 4_000_000_004
+			u.Extra = map[string]string{"gen": "1", "pastSeed": "seed-c10-1", "keep": "c9", "remove": "c11"}
+			if s.Do(u).OK {
+				w.formerMember = 11
+			}
+		}
 	}
 	// the attacker's own node, declaring victims' addresses as its hot keys
 	s.Do(NewAction("node_create", w.attacker))
@@ -346,6 +379,13 @@ func (w *c10World) genAttack(t *rapid.T, s *Sim) *Action {
 		a.MsgProv = claimed(w.gateway)
 		a.Extra = map[string]string{"adv": "1", "legitCreator": fmt.Sprint(w.gateway), "legitProv": "-1"}
 		a.Extra["variant"] = fmt.Sprintf("owner-signed-names-gateway-claims-%s", w.who(a.MsgProv))
+		if w.formerMember > 0 && rapid.IntRange(0, 3).Draw(t, "formerMember") == 0 {
+			// the sid owner's captured proposal, submitted by an account that is no longer bound to it
+			a.Owner, a.Creator, a.MsgProv = w.sidOwner, w.formerMember, -1
+			a.Extra["legitCreator"], a.Extra["legitProv"] = fmt.Sprint(w.sidAcct), "-1"
+			a.Extra["variant"] = "former-member-of-the-owner-did"
+			return a
+		}
 		if rapid.IntRange(0, 2).Draw(t, "sponsored") == 0 {
 			a.PayDid = w.sponsor
 			a.Extra["legitCreator"], a.Extra["legitProv"] = fmt.Sprint(s.Dids[w.sponsor].Acct), fmt.Sprint(w.gateway)
